@@ -7,6 +7,11 @@ V = Path(__file__).resolve().parent.parent
 TECH = "TLA+ specification model-checked with TLC, bound to the implementation by trace validation (TLC checks recorded implementation traces against the abstract spec) and replay of TLC-generated cases/behaviours"
 
 CLAIMS = {
+    "C17": {
+        "text": "Specification Instrument: a run is one chronological log of effects (argument clones / drops, body steps) and collector callbacks tagged with the call being polled; Accept = TwinEq (the attributed twin's effect sequence and outcome equal the plain twin's) + OneSpan (exactly one span per call with the configured name / level / target / parent / follows_from and exactly the expected field set, each field once) + Bracket (every body effect while the call's span is entered, enter / exit only during the call's own polls) + NothingElse (nothing of another call while the span is entered) + Events (exactly the expected ret / err events, with value text, level and target, emitted inside the span after the body) + Closed + Silent (no span or event under none / never / dynamic / capped collectors). MCInstrument is the expansion mechanism (sync guard; Instrumented future entering per poll, ret/err in the last poll, re-entering on drop) for two calls interleaved at poll granularity over 36 call shapes each: TLC checks every complete log is accepted (negative control: span held across .await). Binding: a generated corpus of 460 twin pairs (sync / async fn / Box::pin(async move) style x argument patterns x return shapes x attribute arguments) compiled against /repo; every twin x every path-selecting input runs plain and attributed under an accepting collector (with / without an entered outer span) and under disabling ones, plus 150/2500 interleavings of 2-3 calls polled by a manual executor; both logs and the expectations (from the corpus declaration and the PLAIN twin's outcome) go to TLC, which evaluates Accept and names the failing clause.",
+        "note": "Drops of arguments that die at the same program point are compared as a multiset (their relative order depends on parameter vs. closure-capture order). Bodies use every argument (as async_trait output does). skip_all does not exist at this commit and is not generated; `parent` / `follows_from` must be written before `target` (attr.rs rejects the other order at compile time - noted in DESIGN.md). If the boxed-future ret/err twins stop compiling the check falls back to the rest of the corpus (cargo feature `fragile`).",
+        "ref": "4 (C17)",
+    },
     "C18": {
         "text": "Specification LogBridge. log -> tracing: a record handed to LogTracer (with an ignore list) while collector `cur` is current becomes exactly one event iff `cur` accepts the RECORD's level and target (level acceptance announced through max_level_hint, checked in enabled(), both, or neither) and the target is under no ignored prefix; M is the code's gate chain (record level <= LevelFilter::current(), ignore list, cur.enabled(record metadata) in LogTracer::enabled and again in dispatch_record) and TLC checks M == A for 96 collectors x 8 ignore lists x 5 levels x 7 targets. tracing -> log: ghost `ever` (a collector has been installed at some point) against the EXISTS flag over every install / drop history (negative control: flag reset on drop). Binding, one OS process per trace: (l2t) LogTracer with 4 ignore lists, rounds of 6 filtering collectors (cap x target prefix x hint x level-in-enabled x installed or not) x 20 records (5 levels x 7 targets x 8 messages x file/line/module present or absent, direct or via log!): Log::enabled's answer, event count, normalized target / level / file / line / module and the message are validated by TLC; (t2l) the generated macro corpus of C10 compiled WITH tracing's log feature: histories of callsites with the first scoped / global installation at varying positions, drops and re-installations, plus a sweep of all 2128 compiling callsites in processes that never install a collector; each step's log records (level, target, text projection) are validated against ExpectedRecords (event: one record; span: creation, each record of a declared field, enter, exit, close) before the first installation and must be empty afterwards; plus the level conversion tables.",
         "note": "Record text is projected by substring tests (message, `name=` of every present field, span name). Span creation may use either the span's target or tracing::span (both accepted). log-always and a second live dispatcher raising the global max level are not exercised. Separate cargo workspace /verif/harness-log so that tracing's log feature is not unified into the other drivers.",
